@@ -14,8 +14,9 @@ use super::{
     client::{Client, Config, ForwardPacketError},
 };
 use crate::{
+    MAX_PACKET_SIZE,
     protos::{
-        relay::{Datagrams, Status},
+        relay::{Datagrams, RelayToClientMsg, Status},
         streams::BytesStreamSink,
     },
     server::{client::SendError, metrics::Metrics},
@@ -204,6 +205,19 @@ impl Clients {
         src: EndpointId,
         metrics: &Metrics,
     ) -> Result<(), ForwardPacketError> {
+        // A packet that cannot be framed for the receiver (empty, or too large once the
+        // sender's id is prepended) must never reach the receiver's connection: writing it
+        // there fails and would end the *receiver's* connection. Drop it here instead.
+        let frame_len = RelayToClientMsg::Datagrams {
+            remote_endpoint_id: src,
+            datagrams: data.clone(),
+        }
+        .encoded_len();
+        if data.contents.is_empty() || frame_len > MAX_PACKET_SIZE {
+            debug!(dst = %dst.fmt_short(), "packet can not be forwarded, dropped packet");
+            metrics.send_packets_dropped.inc();
+            return Ok(());
+        }
         let Some(client) = self.0.clients.get(&dst) else {
             debug!(dst = %dst.fmt_short(), "no connected client, dropped packet");
             metrics.send_packets_dropped.inc();
